@@ -54,30 +54,29 @@ FreeSeq(h)  == SelectSeq(IdSeq, LAMBDA i : h[i].k = "free")     \* free ids, asc
 AscSeq(S)  == SelectSeq(IdSeq, LAMBDA i : i \in S)             \* a set of ids, ascending
 
 \* copy the subtree under id into fresh nodes (the smallest free ids, in the order of the
-\* source ids): [h |-> new heap, id |-> new root]
+\* source ids): [h |-> new heap, id |-> new root].
+\* (Everything that is used more than once is an operator ARGUMENT, evaluated once, and every
+\* function is forced: TLC re-evaluates LET definitions and function closures at each use.)
 CanCopy(h, id) == Cardinality(FreeIds(h)) >= Cardinality(Sub(h, id))
-Copy(h, id) ==
-  LET S   == Sub(h, id)
-      ss  == AscSeq(S)
-      fs  == FreeSeq(h)
-      ren == [x \in S |-> fs[CHOOSE j \in 1..Len(ss) : ss[j] = x]]
-      img == {fs[j] : j \in 1..Len(ss)}
-      inv == [y \in img |-> ss[CHOOSE j \in 1..Len(ss) : fs[j] = y]]
-  IN [h  |-> Force([i \in Ids |-> IF i \in img
-                                  THEN [h[inv[i]] EXCEPT !.c = [j \in 1..Len(h[inv[i]].c) |-> ren[h[inv[i]].c[j]]]]
-                                  ELSE h[i]]),
-      id |-> ren[id]]
+Copy3(h, id, ren, inv) ==
+  [h  |-> Force([i \in Ids |-> IF i \in DOMAIN inv
+                               THEN [h[inv[i]] EXCEPT !.c = [j \in 1..Len(h[inv[i]].c) |-> ren[h[inv[i]].c[j]]]]
+                               ELSE h[i]]),
+   id |-> ren[id]]
+Copy2(h, id, ss, fs) ==
+  Copy3(h, id, Force([x \in {ss[j] : j \in 1..Len(ss)} |-> fs[CHOOSE j \in 1..Len(ss) : ss[j] = x]]),
+               Force([y \in {fs[j] : j \in 1..Len(ss)} |-> ss[CHOOSE j \in 1..Len(ss) : fs[j] = y]]))
+Copy(h, id) == Copy2(h, id, AscSeq(Sub(h, id)), FreeSeq(h))
 
 \* place new nodes (child entries are indices into `nodes`) on the smallest free ids
 CanPlace(h, n) == Cardinality(FreeIds(h)) >= n
-Place(h, nodes) ==
-  LET fs    == FreeSeq(h)
-      img   == {fs[j] : j \in 1..Len(nodes)}
-      idx   == [y \in img |-> CHOOSE j \in 1..Len(nodes) : fs[j] = y]
-  IN [h  |-> Force([i \in Ids |-> IF i \in img
-                                  THEN [nodes[idx[i]] EXCEPT !.c = [j \in 1..Len(nodes[idx[i]].c) |-> fs[nodes[idx[i]].c[j]]]]
-                                  ELSE h[i]]),
-      id |-> fs[1]]
+Place3(h, nodes, fs, idx) ==
+  [h  |-> Force([i \in Ids |-> IF i \in DOMAIN idx
+                               THEN [nodes[idx[i]] EXCEPT !.c = [j \in 1..Len(nodes[idx[i]].c) |-> fs[nodes[idx[i]].c[j]]]]
+                               ELSE h[i]]),
+   id |-> fs[1]]
+Place2(h, nodes, fs) == Place3(h, nodes, fs, Force([y \in {fs[j] : j \in 1..Len(nodes)} |-> CHOOSE j \in 1..Len(nodes) : fs[j] = y]))
+Place(h, nodes) == Place2(h, nodes, FreeSeq(h))
 N(k, p, c, ks) == [k |-> k, p |-> p, c |-> c, ks |-> ks]
 InnerNodes(k) == << N("I", k, <<2>>, << >>), N("L", 0, << >>, <<k>>) >>
 \* Outer(k): p = k, i = Inner(k), a = [Inner(k)], d = {FirstKey: Inner(k)}
@@ -134,15 +133,16 @@ Obs(c, r, q) ==
    r  |-> OptVal(c.h, IF r.kind = "node" THEN r.id ELSE IF r.kind = "path" THEN c.cur[r.p] ELSE 0),
    q  |-> OptVal(c.h, q)]
 
-\* install configuration c: collect garbage, drop references whose target is gone, observe
-Install(c, cm, l, ph) ==
-  LET live == Live(c, cm)
-      r2 == IF (c.ro.kind = "node" /\ c.ro.id \notin live) \/ (c.ro.kind = "path" /\ c.cur[c.ro.p] = 0) THEN NoRef ELSE c.ro
-      q2 == IF c.ri # 0 /\ c.ri \notin live THEN 0 ELSE c.ri
-      h2 == Force([i \in Ids |-> IF i \in live THEN c.h[i] ELSE Free])
-      c2 == [c EXCEPT !.h = h2]
-  IN /\ heap' = h2 /\ ov' = c.ov /\ iv' = c.iv /\ cur' = c.cur /\ com' = cm /\ ro' = r2 /\ ri' = q2 /\ phase' = ph
-     /\ last' = l @@ [dropr |-> (r2 # c.ro), dropq |-> (q2 # c.ri), obs |-> Obs(c2, r2, q2)]
+\* install configuration c: collect garbage, drop references whose target is gone, observe.
+\* (Singleton quantifiers bind concrete values: in an action TLC would otherwise re-evaluate a LET
+\* definition or an operator argument at every use.)
+Install(c0, cm, l, ph) ==
+  \E c \in {c0} : \E live \in {Live(c, cm)} :
+  \E h2 \in {Force([i \in Ids |-> IF i \in live THEN c.h[i] ELSE Free])},
+     r2 \in {IF (c.ro.kind = "node" /\ c.ro.id \notin live) \/ (c.ro.kind = "path" /\ c.cur[c.ro.p] = 0) THEN NoRef ELSE c.ro},
+     q2 \in {IF c.ri # 0 /\ c.ri \notin live THEN 0 ELSE c.ri} :
+  /\ heap' = h2 /\ ov' = c.ov /\ iv' = c.iv /\ cur' = c.cur /\ com' = cm /\ ro' = r2 /\ ri' = q2 /\ phase' = ph
+  /\ last' = l @@ [dropr |-> (r2 # c.ro), dropq |-> (q2 # c.ri), obs |-> Obs([c EXCEPT !.h = h2], r2, q2)]
 
 Do(c, l) == /\ phase = "tx" /\ nops < MaxOps /\ Install(c, com, l, "tx") /\ nops' = nops + 1 /\ UNCHANGED ntx
 On(a)    == a \in Acts /\ phase = "tx" /\ nops < MaxOps
@@ -152,24 +152,24 @@ Init == /\ heap = [i \in Ids |-> Free] /\ ov = [v \in OVars |-> 0] /\ iv = [w \i
         /\ phase = "idle" /\ nops = 0 /\ ntx = 0 /\ last = [op |-> "init"]
 
 \* a transaction starts with fresh locals; the stored values it sees are the committed ones
+\* (copies of the committed nodes: the committed nodes themselves stay untouched until Commit)
+SetO(c, v, pl) == [c EXCEPT !.h = pl.h, !.ov[v] = pl.id]
+SetI(c, w, pl) == [c EXCEPT !.h = pl.h, !.iv[w] = pl.id]
+SetC(c, p, cp) == [c EXCEPT !.h = cp.h, !.cur[p] = cp.id]
+RECURSIVE MkLocals(_, _, _)
+MkLocals(c, os, is) ==
+  IF os # {} THEN LET v == CHOOSE x \in os : TRUE IN MkLocals(SetO(c, v, Place(c.h, OuterNodes(0))), os \ {v}, is)
+  ELSE IF is # {} THEN LET w == CHOOSE x \in is : TRUE IN MkLocals(SetI(c, w, Place(c.h, InnerNodes(0))), os, is \ {w})
+  ELSE c
+RECURSIVE CpStored(_, _)
+CpStored(c, ps) ==
+  IF ps = {} THEN c
+  ELSE LET p == CHOOSE x \in ps : TRUE IN
+       IF com[p] = 0 THEN CpStored(c, ps \ {p}) ELSE CpStored(SetC(c, p, Copy(c.h, com[p])), ps \ {p})
 Begin ==
   /\ phase = "idle" /\ ntx < MaxTx
-  /\ LET RECURSIVE Mk(_, _, _)
-         \* allocate the locals one after the other: vs = remaining names, c = configuration so far
-         Mk(c, os, is) ==
-           IF os # {} THEN LET v == CHOOSE x \in os : TRUE  pl == Place(c.h, OuterNodes(0))
-                           IN Mk([c EXCEPT !.h = pl.h, !.ov[v] = pl.id], os \ {v}, is)
-           ELSE IF is # {} THEN LET w == CHOOSE x \in is : TRUE  pl == Place(c.h, InnerNodes(0))
-                                IN Mk([c EXCEPT !.h = pl.h, !.iv[w] = pl.id], os, is \ {w})
-           ELSE c
-         RECURSIVE Cp(_, _)
-         Cp(c, ps) ==
-           IF ps = {} THEN c
-           ELSE LET p == CHOOSE x \in ps : TRUE IN
-                IF com[p] = 0 THEN Cp(c, ps \ {p})
-                ELSE LET cp == Copy(c.h, com[p]) IN Cp([c EXCEPT !.h = cp.h, !.cur[p] = cp.id], ps \ {p})
-         c0 == Cfg(heap, ov, iv, [p \in SPaths |-> 0], NoRef, 0)
-     IN Install(Cp(Mk(c0, OVars, IVars), SPaths), com, [op |-> "begin"], "tx")
+  /\ \E c1 \in {CpStored(MkLocals(Cfg(heap, ov, iv, [p \in SPaths |-> 0], NoRef, 0), OVars, IVars), SPaths)} :
+       Install(c1, com, [op |-> "begin"], "tx")
   /\ nops' = 0 /\ ntx' = ntx + 1
 EndCfg(st) == Cfg(heap, [v \in OVars |-> 0], [w \in IVars |-> 0], st, NoRef, 0)
 Commit == /\ phase = "tx" /\ Install(EndCfg(cur), cur, [op |-> "commit"], "idle") /\ UNCHANGED <<nops, ntx>>
@@ -177,16 +177,16 @@ Abort  == /\ phase = "tx" /\ Install(EndCfg(com), com, [op |-> "abort"], "idle")
 
 \* ---- constructors
 NewO(v, k) == /\ On("new") /\ CanPlace(heap, OuterSize)
-              /\ LET pl == Place(heap, OuterNodes(k)) IN
+              /\ \E pl \in {Place(heap, OuterNodes(k))} :
                  Do([Here EXCEPT !.h = pl.h, !.ov[v] = pl.id], [op |-> "newO", v |-> v, k |-> k])
 NewI(w, k) == /\ On("new") /\ CanPlace(heap, 2)
-              /\ LET pl == Place(heap, InnerNodes(k)) IN
+              /\ \E pl \in {Place(heap, InnerNodes(k))} :
                  Do([Here EXCEPT !.h = pl.h, !.iv[w] = pl.id], [op |-> "newI", v |-> w, k |-> k])
 
 \* ---- transfers of a whole Outer: v = src | v = id(src) ; mutArg(src) passes a copy that the callee mutates
 AssignO(v, src, how) ==
   /\ On("assign") /\ src # v /\ OTarget(src) # 0 /\ CanCopy(heap, OTarget(src))
-  /\ LET cp == Copy(heap, OTarget(src)) IN
+  /\ \E cp \in {Copy(heap, OTarget(src))} :
      Do([Here EXCEPT !.h = cp.h, !.ov[v] = cp.id], [op |-> how, v |-> v, src |-> src])
 ArgMutO(src) ==
   /\ On("assign") /\ OTarget(src) # 0 /\ CanCopy(heap, OTarget(src))
@@ -195,7 +195,7 @@ ArgMutO(src) ==
 \* ---- member / element read: w = <location>   (a copy)
 ReadI(w, loc) ==
   /\ On("member") /\ ITarget(loc) # 0 /\ ~(loc.sel.f = "-" /\ loc.root = w) /\ CanCopy(heap, ITarget(loc))
-  /\ LET cp == Copy(heap, ITarget(loc)) IN
+  /\ \E cp \in {Copy(heap, ITarget(loc))} :
      Do([Here EXCEPT !.h = cp.h, !.iv[w] = cp.id], [op |-> "readI", v |-> w, root |-> loc.root, sel |-> loc.sel])
 
 \* ---- member / element write: <root>.i = src | <root>.a[j] = src | <root>.d[key] = src   (a copy goes in)
@@ -203,8 +203,8 @@ SrcI == IVars \cup {"q"}
 ITargetOf(name) == IF name \in IVars THEN iv[name] ELSE ri
 WriteI(root, s, src) ==
   /\ On("member") /\ OTarget(root) # 0 /\ ITargetOf(src) # 0 /\ CanCopy(heap, ITargetOf(src))
-  /\ LET oid == OTarget(root)
-         cp  == Copy(heap, ITargetOf(src))
+  /\ \E cp \in {Copy(heap, ITargetOf(src))} :
+     LET oid == OTarget(root)
          l   == [op |-> "writeI", root |-> root, sel |-> s, src |-> src]
      IN CASE s.f = "i" -> Do([Here EXCEPT !.h = [cp.h EXCEPT ![oid].c[1] = cp.id]], l)
           [] s.f = "a" -> /\ s.j < Len(heap[heap[oid].c[2]].c)
@@ -219,14 +219,15 @@ WriteI(root, s, src) ==
 AppendA(root, src) ==
   /\ On("container") /\ OTarget(root) # 0 /\ ITargetOf(src) # 0 /\ CanCopy(heap, ITargetOf(src))
   /\ Len(heap[heap[OTarget(root)].c[2]].c) < MaxSeq
-  /\ LET aid == heap[OTarget(root)].c[2]  cp == Copy(heap, ITargetOf(src)) IN
+  /\ \E cp \in {Copy(heap, ITargetOf(src))} : LET aid == heap[OTarget(root)].c[2] IN
      Do([Here EXCEPT !.h = [cp.h EXCEPT ![aid].c = Append(heap[aid].c, cp.id)]], [op |-> "appendA", root |-> root, src |-> src])
 \* w = <root>.a.removeLast(): the removed element is handed out as a copy
 PopA(w, root) ==
   /\ On("container") /\ OTarget(root) # 0 /\ Len(heap[heap[OTarget(root)].c[2]].c) > 0
-  /\ LET aid == heap[OTarget(root)].c[2]  n == Len(heap[aid].c)  cp == Copy(heap, heap[aid].c[n]) IN
+  /\ LET aid == heap[OTarget(root)].c[2]  n == Len(heap[aid].c) IN
      /\ CanCopy(heap, heap[aid].c[n])
-     /\ Do([Here EXCEPT !.h = [cp.h EXCEPT ![aid].c = SubSeq(heap[aid].c, 1, n - 1)], !.iv[w] = cp.id],
+     /\ \E cp \in {Copy(heap, heap[aid].c[n])} :
+        Do([Here EXCEPT !.h = [cp.h EXCEPT ![aid].c = SubSeq(heap[aid].c, 1, n - 1)], !.iv[w] = cp.id],
            [op |-> "popA", v |-> w, root |-> root])
 DelD(root, key) ==
   /\ On("container") /\ OTarget(root) # 0 /\ KeyPos(heap[heap[OTarget(root)].c[3]], key) # 0
@@ -250,13 +251,13 @@ Push(loc, k) ==
 \* ---- storage: save / load / copy
 Save(v, p) ==
   /\ On("storage") /\ cur[p] = 0 /\ CanCopy(heap, ov[v])
-  /\ LET cp == Copy(heap, ov[v]) IN Do([Here EXCEPT !.h = cp.h, !.cur[p] = cp.id], [op |-> "save", v |-> v, path |-> p])
+  /\ \E cp \in {Copy(heap, ov[v])} : Do([Here EXCEPT !.h = cp.h, !.cur[p] = cp.id], [op |-> "save", v |-> v, path |-> p])
 Load(v, p) ==
   /\ On("storage") /\ cur[p] # 0 /\ CanCopy(heap, cur[p])
-  /\ LET cp == Copy(heap, cur[p]) IN Do([Here EXCEPT !.h = cp.h, !.ov[v] = cp.id, !.cur[p] = 0], [op |-> "load", v |-> v, path |-> p])
+  /\ \E cp \in {Copy(heap, cur[p])} : Do([Here EXCEPT !.h = cp.h, !.ov[v] = cp.id, !.cur[p] = 0], [op |-> "load", v |-> v, path |-> p])
 CopySt(v, p) ==
   /\ On("storage") /\ cur[p] # 0 /\ CanCopy(heap, cur[p])
-  /\ LET cp == Copy(heap, cur[p]) IN Do([Here EXCEPT !.h = cp.h, !.ov[v] = cp.id], [op |-> "copySt", v |-> v, path |-> p])
+  /\ \E cp \in {Copy(heap, cur[p])} : Do([Here EXCEPT !.h = cp.h, !.ov[v] = cp.id], [op |-> "copySt", v |-> v, path |-> p])
 
 \* ---- taking references
 RefO(v)   == On("ref") /\ Do([Here EXCEPT !.ro = [kind |-> "node", id |-> ov[v], p |-> ""]], [op |-> "refO", v |-> v])
